@@ -1,3 +1,799 @@
-import Kurbo.Shapes
+import Proofs.KDefs
+import Proofs.Lemmas.C10Struct
+import Proofs.Lemmas.C10Real
+import Proofs.Lemmas.C10Quarter
+import Proofs.Lemmas.C10CircleTol
+import Proofs.Lemmas.C10ArcTol
+import Proofs.Lemmas.C10Ellipse
+/-! C10 – shape outlines.
+
+    "For circles, ellipses, elliptical arcs, rounded rectangles and circle segments, every point of the Bezier
+    outline produced for tolerance T lies within T of the ideal shape, and the outline traverses the whole shape
+    exactly once, with consecutive pieces joined end to end and closed shapes producing contours that return to
+    their starting point.  Shapes that are already polygons or Beziers (line, rect, triangle, segments) are
+    reproduced exactly."
+
+    All statements are about the model functions of `Kurbo/Shapes.lean` exactly as they are.
+
+    What is proved
+
+    A. Structure, for EVERY `Scalar` (also `Float`); the arithmetic in these statements is the model's own
+       (`Scalar.add …`), hidden in the named point functions of `Proofs/Lemmas/C10Struct.lean`:
+       1. exact shapes: `segs` of the outline of a line / quadratic / cubic is that one segment; `Rect` and
+          `Triangle` give the literal corner lists, whose segments are the sides in order plus the closing side
+          (omitted exactly when `Point.peq` says that the last corner is the first; for a scalar with lawful
+          equality: when the two corners are equal).
+       2. arcs: `append_iter` has exactly `n = (appendParams tol).1` elements, all `CurveTo`; `path_elements` is
+          `MoveTo` + these; piece `k` is `CurveTo (c + (S θ_k + arm·S(θ_k + π/2))) (c + (S θ_{k+1} − arm·S(θ_{k+1} + π/2)))
+          (c + S θ_{k+1})` with `S = sampleEllipse radii rot` and `θ_k = accAngle start step k` the angle accumulated by
+          repeated addition; `segs` of the outline are the `n` cubics, piece `k` from `c + S θ_k` to `c + S θ_{k+1}`
+          (consecutive pieces joined end to end; never panics).
+       3. circles: `MoveTo (x + r, y)`, `n = (pathParams tol).1` `CurveTo`s, `ClosePath`; the last `CurveTo` ends at
+          the literal `(x + r·1, y + r·0)`, every other piece `k` at `(x + r·cos θ_{k+1}, y + r·sin θ_{k+1})`,
+          `θ_k = delta_th·k`; for a lawful scalar the contour therefore returns EXACTLY to its `MoveTo` point, `segs`
+          is the `n` cubics with no closing line, and the start angle `θ_{k+1} − delta_th` of piece `k` is `θ_k`.
+       4. rounded rectangles: `interleaveRounded` for arbitrary element lists, the outline
+          `[MoveTo] ++ arc₀ ++ [LineTo] ++ arc₁ ++ [LineTo] ++ arc₂ ++ [LineTo] ++ arc₃ ++ [ClosePath]`, all arc
+          elements `CurveTo`.
+       5. circle segments: `[MoveTo, LineTo] ++ outer arc ++ [LineTo] ++ inner arc`; ellipses: the outline of the
+          full-turn arc with the `svd` radii and rotation.  `segs` of the rounded-rectangle and circle-segment outlines:
+          cubics and lines alternate, each starting where the piece before ends (`roundedRect_segs`, `cseg_segs`).
+    B. Over ℝ, for a `Scalar ℝ` whose `sin cos tan pi` are the real ones (`LawfulTrig`) and, where piece counts
+       matter, whose `as usize`/`powf` are `⌊·⌋₊`/`rpow` (`LawfulCount`):
+       6. `sampleEllipse` lies on the ideal ellipse (turned back by `−rot` it is `(rx cos θ, ry sin θ)`); every element
+          end point of an arc / ellipse outline lies on the ideal ellipse, of a circle outline, of the four corner
+          arcs of a rounded rectangle and of the two arcs of a circle segment on the ideal circle.
+       7. the control arms `p1 − p0`, `p3 − p2` of every arc piece are `arm_len` times the derivative of
+          `θ ↦ sampleEllipse θ` at the piece's end angles (`HasDerivAt`); same for circle pieces.
+       8. one traversal: the accumulated angle after the `n` pieces is `start + sweep` (for every arc, also
+          `sweep = 0`, `n = 0`), `θ_k = start + k·sweep/n`, each piece spans at most `2π/3.999999`;
+          circles: `delta_th·n = 2π`, `n = 4` or `n ≥ 5` according to the branch, the pieces are the standard
+          circular-arc cubics between `2πk/n` and `2π(k+1)/n`.
+          Closedness: ellipse outline ends where it starts; circle-segment outline: each arc starts where the
+          element before ends, the radial lines join them, and the last piece returns to the `MoveTo` point;
+          rounded rectangle: each corner arc starts at the end of the straight piece before it and ends on the
+          next side (so the following `LineTo`/`ClosePath` line is axis-parallel).
+       9. radial error and THE TOLERANCE CLAIM FOR CIRCLES (and for circular arcs of large radius):
+          * `circle_piece_radial_identity`: for one circular piece of half-angle `φ` and arm `a·r`
+            (`s, c = sin φ, cos φ`, `σ = t(1−t)`): `|B(t) − c|² − r² = r²(σ²(9a² − 12s² + 12acs) − 4σ³(2s − 3ac)²)`;
+            with the arm `4/3·tan(φ/2)` this is `r²·16·S⁶/C²·(σ² − 4σ³)`, `S, C = sin, cos (φ/2)`: the piece never enters
+            the circle and leaves it by at most `|r|·(2/27)·S⁶/C²`.
+          * fixed branch (`|r|/T < 1/1.9608e-4`: `n = 4`, `a = 0.551915024494`): every point `B(t)`, `t ∈ [0,1]`, of each
+            of the four cubics is within `1.9608e-4·|r| < T` of the ideal circle (exact rational certificates for the
+            degree-6 polynomial; the margins are ≈ 7e-9).
+          * formula branch (`n = ⌈(1.1163·|r|/T)^(1/6)⌉ ≥ 5`): every point is within `1.1163·|r|/n⁶ ≤ T`; the analytic core
+            is `(2/27)·sin⁶(π/2n)·n⁶ ≤ 1.1163·cos²(π/2n)` for `n ≥ 5` (`circle_constant_bound`; at `n = 5` the quotient is 1.11422, its limit `(2/27)(π/2)⁶ = 1.11272`).
+          * `circle_within_tolerance`: for EVERY circle and EVERY `T > 0` every point of the outline is within `T` of
+            the ideal circle.
+          * circular arcs (radii `(R, R)`, no rotation – the corner arcs of rounded rectangles and the arcs of circle
+            segments): each piece is the standard circular-arc cubic with arm `4/3·tan(step/4)`, and when
+            `1.1163·R/T ≥ 5⁶` (`R/T ≥ 13997.2`, so that `n_err ≥ 5`) every point of every piece is within `T`.
+
+      10. (with `LawfulReal`: `sqrt`, `atan2` are the real ones) `Affine::svd` diagonalises `M·Mᵀ`, `rx·ry = |det|`, and every
+          element end point of an ellipse outline lies on the image of the unit circle under `e.inner`
+          (`|e.inner⁻¹·p|² = 1`, the quantity `Ellipse::winding` compares with 1).
+
+    What is NOT proved
+    * "every point of the outline lies within T of the ideal shape" for
+        – circular arcs (rounded-rectangle corners, circle segments) with `R/T < 13997.2`: there `n_err ∈ [3.999999, 5)`
+          and, by the measurements made while designing, the claim holds only with relative margins of about 1e-4 and
+          less (the estimates used here – `sin x ≤ x − x³/6 + x⁵/100`, `cos x ≥ 1 − x²/2`, `√(1+u) ≤ 1 + u/2` – are too
+          coarse for that); the error formula `|r|·(√(1 + 16·S⁶/C²·(σ²−4σ³)) − 1)` is proved
+          (`circle_piece_radial_identity_tan`), the final numeric inequality is not;
+        – genuinely elliptical arcs and ellipses (`rx ≠ ry`): the error is not radial and the count formula uses
+          `max(rx, ry)`; only the end points and tangent directions of the pieces are shown to be exact.
+      These cases are decided per instance by the exact certificates of the oracle.
+    * anything about `Float` beyond part A (no arithmetic law holds there: e.g. `θ_{k+1} − delta_th = θ_k` and
+      `x + r·1 = x + r` need exact arithmetic).  `as usize` saturation is not modelled in `LawfulCount`. -/
+set_option linter.unusedSectionVars false
+
+/-! ## A. structure (every `Scalar`, also `Float`) -/
 namespace Kurbo
+section anyScalar
+variable {K : Type} [Scalar K]
+
+/-! ### 1. exact shapes -/
+
+theorem line_path_segs (l : Line K) : segs l.path_elements = some [.Line l] := rfl
+theorem quad_path_segs (q : QuadBez K) : segs q.path_elements = some [.Quad q] := rfl
+theorem cubic_path_segs (c : CubicBez K) : segs c.path_elements = some [.Cubic c] := rfl
+
+/-- all five at once -/
+theorem exact_shapes (l : Line K) (q : QuadBez K) (c : CubicBez K) (r : Rect K) (t : Triangle K) :
+    segs l.path_elements = some [.Line l] ∧ segs q.path_elements = some [.Quad q] ∧
+    segs c.path_elements = some [.Cubic c] ∧
+    r.path_elements = [.MoveTo ⟨r.x0, r.y0⟩, .LineTo ⟨r.x1, r.y0⟩, .LineTo ⟨r.x1, r.y1⟩, .LineTo ⟨r.x0, r.y1⟩, .ClosePath] ∧
+    t.path_elements = [.MoveTo t.a, .LineTo t.b, .LineTo t.c, .ClosePath] := ⟨rfl, rfl, rfl, rfl, rfl⟩
+
+/-- the literal corner list -/
+theorem rect_path_elements (r : Rect K) :
+    r.path_elements = [.MoveTo ⟨r.x0, r.y0⟩, .LineTo ⟨r.x1, r.y0⟩, .LineTo ⟨r.x1, r.y1⟩, .LineTo ⟨r.x0, r.y1⟩, .ClosePath] := rfl
+
+theorem triangle_path_elements (t : Triangle K) :
+    t.path_elements = [.MoveTo t.a, .LineTo t.b, .LineTo t.c, .ClosePath] := rfl
+
+/-- three sides, and the fourth unless `Point.peq` (Rust `==`) identifies the last corner with the first -/
+theorem rect_path_segs_peq (r : Rect K) :
+    segs r.path_elements = some ([.Line ⟨⟨r.x0, r.y0⟩, ⟨r.x1, r.y0⟩⟩, .Line ⟨⟨r.x1, r.y0⟩, ⟨r.x1, r.y1⟩⟩,
+        .Line ⟨⟨r.x1, r.y1⟩, ⟨r.x0, r.y1⟩⟩]
+      ++ if (⟨r.x0, r.y1⟩ : Point K).peq ⟨r.x0, r.y0⟩ then [] else [.Line ⟨⟨r.x0, r.y1⟩, ⟨r.x0, r.y0⟩⟩]) := by
+  rw [rect_path_elements, segs_moveTo]
+  simp only [segsT, stepT, Option.toList, List.cons_append, List.nil_append]
+  by_cases h : (⟨r.x0, r.y1⟩ : Point K).peq ⟨r.x0, r.y0⟩ = true <;> simp [h]
+
+theorem triangle_path_segs_peq (t : Triangle K) :
+    segs t.path_elements = some ([.Line ⟨t.a, t.b⟩, .Line ⟨t.b, t.c⟩]
+      ++ if t.c.peq t.a then [] else [.Line ⟨t.c, t.a⟩]) := by
+  rw [triangle_path_elements, segs_moveTo]
+  simp only [segsT, stepT, Option.toList, List.cons_append, List.nil_append]
+  by_cases h : t.c.peq t.a = true <;> simp [h]
+
+/-- lawful equality (ℚ, ℝ, …; not `Float`): a non-degenerate rectangle gives its four sides in order -/
+theorem rect_path_segs [LawfulPeq K] (r : Rect K) (h : r.y1 ≠ r.y0) :
+    segs r.path_elements = some [.Line ⟨⟨r.x0, r.y0⟩, ⟨r.x1, r.y0⟩⟩, .Line ⟨⟨r.x1, r.y0⟩, ⟨r.x1, r.y1⟩⟩,
+      .Line ⟨⟨r.x1, r.y1⟩, ⟨r.x0, r.y1⟩⟩, .Line ⟨⟨r.x0, r.y1⟩, ⟨r.x0, r.y0⟩⟩] := by
+  rw [rect_path_segs_peq, (peq_false_iff _ _).2 (fun e => h (Point.mk.inj e).2)]
+  rfl
+
+/-- … and a rectangle of height zero only three (no closing side) -/
+theorem rect_path_segs_flat [LawfulPeq K] (r : Rect K) (h : r.y1 = r.y0) :
+    segs r.path_elements = some [.Line ⟨⟨r.x0, r.y0⟩, ⟨r.x1, r.y0⟩⟩, .Line ⟨⟨r.x1, r.y0⟩, ⟨r.x1, r.y1⟩⟩,
+      .Line ⟨⟨r.x1, r.y1⟩, ⟨r.x0, r.y1⟩⟩] := by
+  rw [rect_path_segs_peq, (peq_iff _ _).2 (by rw [h])]
+  rfl
+
+/-- lawful equality: a triangle gives its three sides in order (two when `c = a`) -/
+theorem triangle_path_segs [LawfulPeq K] (t : Triangle K) (h : t.c ≠ t.a) :
+    segs t.path_elements = some [.Line ⟨t.a, t.b⟩, .Line ⟨t.b, t.c⟩, .Line ⟨t.c, t.a⟩] := by
+  rw [triangle_path_segs_peq, (peq_false_iff _ _).2 h]
+  rfl
+
+theorem triangle_path_segs_degenerate [LawfulPeq K] (t : Triangle K) (h : t.c = t.a) :
+    segs t.path_elements = some [.Line ⟨t.a, t.b⟩, .Line ⟨t.b, t.c⟩] := by
+  rw [triangle_path_segs_peq, (peq_iff _ _).2 h]
+  rfl
+
+example : (⟨0, 0, 2, 1⟩ : Rect ℚ).y1 ≠ (⟨0, 0, 2, 1⟩ : Rect ℚ).y0 := by decide
+example : (⟨⟨0, 0⟩, ⟨1, 0⟩, ⟨0, 1⟩⟩ : Triangle ℚ).c ≠ (⟨⟨0, 0⟩, ⟨1, 0⟩, ⟨0, 1⟩⟩ : Triangle ℚ).a := by decide
+
+/-! ### 2. elliptical arcs
+
+    `accAngle start step k` is the angle after `k` steps, accumulated by repeated addition as `ArcAppendIter` does;
+    `arcPt c radii rot step start k = c + sampleEllipse radii rot (accAngle start step k)`. -/
+
+theorem accAngle_zero (start step : K) : accAngle start step 0 = start := rfl
+theorem accAngle_succ (start step : K) (k : Nat) :
+    accAngle start step (k + 1) = Scalar.add (accAngle start step k) step := rfl
+
+theorem arc_append_length (a : Arc K) (tol : K) : (a.append_iter tol).length = (a.appendParams tol).1 := by
+  rw [append_iter_eq, curveEls_length]
+
+theorem arc_append_all_curveTo (a : Arc K) (tol : K) : ∀ el ∈ a.append_iter tol, el.isCurveTo = true := by
+  rw [append_iter_eq]; exact curveEls_isCurveTo _ _ _ _
+
+theorem arc_path_structure (a : Arc K) (tol : K) :
+    a.path_elements tol = PathEl.MoveTo (arcPt a.center a.radii a.x_rotation (a.appendParams tol).2.2 a.start_angle 0)
+      :: a.append_iter tol := rfl
+
+/-- piece `k` in closed form -/
+theorem arc_pieces_chain (a : Arc K) (tol : K) (k : Nat) (hk : k < (a.appendParams tol).1) :
+    (a.append_iter tol)[k]? = some (PathEl.CurveTo
+      (arcC1 a.center a.radii a.x_rotation (a.appendParams tol).2.1 (a.appendParams tol).2.2 a.start_angle k)
+      (arcC2 a.center a.radii a.x_rotation (a.appendParams tol).2.1 (a.appendParams tol).2.2 a.start_angle k)
+      (arcEnd a.center a.radii a.x_rotation (a.appendParams tol).2.2 a.start_angle k)) := by
+  rw [append_iter_eq]; exact curveEls_getElem? _ _ _ _ _ hk
+
+/-- … where the end point `p3` of piece `k` is the ellipse point at the accumulated angle number `k + 1`, -/
+theorem arc_piece_p3 (c : Point K) (radii : Vec2 K) (rot step start : K) (k : Nat) :
+    arcEnd c radii rot step start k = c + sampleEllipse radii rot (accAngle start step (k + 1)) := rfl
+
+/-- `p1 = c + (S θ_k + arm · S(θ_k + π/2))` and -/
+theorem arc_piece_p1 (c : Point K) (radii : Vec2 K) (rot arm step start : K) (k : Nat) :
+    arcC1 c radii rot arm step start k
+      = c + (sampleEllipse radii rot (accAngle start step k)
+          + arm * sampleEllipse radii rot (Scalar.add (accAngle start step k) fracPi2)) := rfl
+
+/-- `p2 = c + (S θ_{k+1} − arm · S(θ_{k+1} + π/2))` -/
+theorem arc_piece_p2 (c : Point K) (radii : Vec2 K) (rot arm step start : K) (k : Nat) :
+    arcC2 c radii rot arm step start k
+      = c + (sampleEllipse radii rot (accAngle start step (k + 1))
+          - arm * sampleEllipse radii rot (Scalar.add (accAngle start step (k + 1)) fracPi2)) := rfl
+
+theorem arcPt_def (c : Point K) (radii : Vec2 K) (rot step start : K) (k : Nat) :
+    arcPt c radii rot step start k = c + sampleEllipse radii rot (accAngle start step k) := rfl
+
+/-- the segments of an arc outline: `n` cubics, piece `k` from ellipse point `k` to ellipse point `k + 1`
+    (consecutive pieces joined end to end); the `Segments` iterator never panics on it -/
+theorem arc_segs (a : Arc K) (tol : K) :
+    segs (a.path_elements tol) = some ((List.range (a.appendParams tol).1).map fun k => PathSeg.Cubic
+      ⟨arcPt a.center a.radii a.x_rotation (a.appendParams tol).2.2 a.start_angle k,
+       arcC1 a.center a.radii a.x_rotation (a.appendParams tol).2.1 (a.appendParams tol).2.2 a.start_angle k,
+       arcC2 a.center a.radii a.x_rotation (a.appendParams tol).2.1 (a.appendParams tol).2.2 a.start_angle k,
+       arcPt a.center a.radii a.x_rotation (a.appendParams tol).2.2 a.start_angle (k + 1)⟩) := by
+  rw [arc_path_structure, append_iter_eq, segs_moveTo_curveEls, curveSegs_arc]
+
+/-- an ellipse is outlined as the full-turn arc (`start = 0`, `sweep = 2π`) with the `svd` radii and rotation -/
+theorem ellipse_path_structure (e : Ellipse K) (tol : K) :
+    e.path_elements tol = e.arc.path_elements tol ∧
+    e.arc.center = e.center ∧ e.arc.radii = e.inner.svd.1 ∧ e.arc.x_rotation = e.inner.svd.2 ∧
+    e.arc.sweep_angle = twoPi := ⟨rfl, rfl, rfl, rfl, rfl⟩
+
+-- non-vacuity: an arc over ℚ with two pieces (the ℚ instance has `sin x = x`, `cos x = 1`, `powf x _ = x`)
+example : ((⟨⟨0, 0⟩, ⟨1, 1⟩, 0, 2, 0⟩ : Arc ℚ).appendParams 1).1 = 2 := by decide +kernel
+
+/-! ### 3. circles
+
+    `circleStart c = (x + r, y)`; `circleTheta n k = delta_th · k` with `delta_th = 2π / n`;
+    `circleC1/C2/End c a n k` are the three points of piece `k` exactly as the iterator computes them. -/
+
+theorem circle_path_structure (c : Circle K) (tol : K) :
+    c.path_elements tol = PathEl.MoveTo (circleStart c) ::
+      (curveEls (circleC1 c (c.pathParams tol).2 (c.pathParams tol).1) (circleC2 c (c.pathParams tol).2 (c.pathParams tol).1)
+        (circleEnd c (c.pathParams tol).1) (c.pathParams tol).1 ++ [PathEl.ClosePath]) ∧
+    (curveEls (circleC1 c (c.pathParams tol).2 (c.pathParams tol).1) (circleC2 c (c.pathParams tol).2 (c.pathParams tol).1)
+        (circleEnd c (c.pathParams tol).1) (c.pathParams tol).1).length = (c.pathParams tol).1 :=
+  ⟨circle_path_elements_eq c tol, curveEls_length _ _ _ _⟩
+
+theorem circleStart_def (c : Circle K) : circleStart c = ⟨Scalar.add c.center.x c.radius, c.center.y⟩ := rfl
+
+/-- the last piece ends at the literal `(x + r·1, y + r·0)`: the `(0, 1)` substituted for the last `(sin, cos)` -/
+theorem circle_last_piece_literal (c : Circle K) (n : Nat) :
+    circleEnd c (n + 1) n = ⟨Scalar.add c.center.x (Scalar.mul c.radius (Scalar.ofRat 1)),
+      Scalar.add c.center.y (Scalar.mul c.radius (Scalar.ofRat 0))⟩ := by
+  rw [circleEnd_last]; rfl
+
+/-- every other piece `k` ends at `(x + r·cos θ_{k+1}, y + r·sin θ_{k+1})` -/
+theorem circle_piece_end (c : Circle K) (n k : Nat) (h : k + 1 ≠ n) :
+    circleEnd c n k = ⟨Scalar.add c.center.x (Scalar.mul c.radius (Scalar.cos (circleTheta n (k + 1) : K))),
+      Scalar.add c.center.y (Scalar.mul c.radius (Scalar.sin (circleTheta n (k + 1) : K)))⟩ := by
+  rw [circleEnd_inner c n k h]; rfl
+
+/-- the segments of a circle outline: the `n` cubics, each starting at the end point of the one before (the first at
+    `(x + r, y)`), and a closing line exactly when `Point.peq` does not identify the last end point with `(x + r, y)` -/
+theorem circle_segs_peq (c : Circle K) (tol : K) :
+    segs (c.path_elements tol)
+      = some (curveSegs (circleStart c) (circleC1 c (c.pathParams tol).2 (c.pathParams tol).1)
+          (circleC2 c (c.pathParams tol).2 (c.pathParams tol).1) (circleEnd c (c.pathParams tol).1) (c.pathParams tol).1
+        ++ (if (chainStart (circleStart c) (circleEnd c (c.pathParams tol).1) (c.pathParams tol).1).peq (circleStart c)
+            then [] else [PathSeg.Line ⟨chainStart (circleStart c) (circleEnd c (c.pathParams tol).1) (c.pathParams tol).1,
+              circleStart c⟩])) := by
+  rw [circle_path_elements_eq, segs_moveTo_curveEls_close]
+
+/-! ### 4. rounded rectangles -/
+
+theorem roundedRect_interleave (r0 r1 r2 r3 r4 : PathEl K) (a0 a1 a2 a3 : List (PathEl K)) :
+    interleaveRounded [r0, r1, r2, r3, r4] [a0, a1, a2, a3]
+      = [r0] ++ a0 ++ [r1] ++ a1 ++ [r2] ++ a2 ++ [r3] ++ a3 ++ [r4] :=
+  interleaveRounded_eq r0 r1 r2 r3 r4 a0 a1 a2 a3
+
+/-- `s.p0 … s.p3` are the four points of the inner rectangle iterator, `s.arcTL …` the four corner arcs
+    (quarter turns starting at `2, 3, 0, 1` times `π/2`) -/
+theorem roundedRect_path_structure (s : RoundedRect K) (tol : K) :
+    s.path_elements tol = [PathEl.MoveTo s.p0] ++ s.arcTL.append_iter tol ++ [PathEl.LineTo s.p1] ++ s.arcTR.append_iter tol
+      ++ [PathEl.LineTo s.p2] ++ s.arcBR.append_iter tol ++ [PathEl.LineTo s.p3] ++ s.arcBL.append_iter tol
+      ++ [PathEl.ClosePath] ∧
+    s.arcs = [s.arcTL, s.arcTR, s.arcBR, s.arcBL] ∧
+    s.rectEls = [.MoveTo s.p0, .LineTo s.p1, .LineTo s.p2, .LineTo s.p3, .ClosePath] :=
+  ⟨roundedRect_path_elements_eq s tol, rfl, rfl⟩
+
+theorem roundedRect_arcs_all_curveTo (s : RoundedRect K) (tol : K) :
+    ∀ a ∈ s.arcs, ∀ el ∈ a.append_iter tol, el.isCurveTo = true :=
+  fun a _ => arc_append_all_curveTo a tol
+
+/-! ### 5. circle segments -/
+
+theorem cseg_path_structure (s : CircleSegment K) (tol : K) :
+    s.path_elements tol
+      = [PathEl.MoveTo (pointOnCircle s.center s.inner_radius s.start_angle),
+         PathEl.LineTo (pointOnCircle s.center s.outer_radius s.start_angle)]
+        ++ s.outer_arc.append_iter tol
+        ++ [PathEl.LineTo (pointOnCircle s.center s.inner_radius s.inner_arc.start_angle)]
+        ++ s.inner_arc.append_iter tol := rfl
+
+/-! ### segments of the composite outlines
+
+    `arcSegsFrom p a tol`: the cubics of the pieces of arc `a` when the pen starts at `p` (the first starts at `p`, each
+    further one at the end point of the one before); `penAfter p els`: where the pen is after drawing `els` from `p`. -/
+
+/-- rounded rectangle: corner cubics, side, corner cubics, side, … each starting where the piece before ends; the
+    closing side is emitted unless `Point.peq` identifies the end of the last corner with the start point.
+    `segs` never panics on it. -/
+theorem roundedRect_segs (s : RoundedRect K) (tol : K) :
+    segs (s.path_elements tol) = some (
+      arcSegsFrom s.p0 s.arcTL tol ++ PathSeg.Line ⟨penAfter s.p0 (s.arcTL.append_iter tol), s.p1⟩ ::
+      (arcSegsFrom s.p1 s.arcTR tol ++ PathSeg.Line ⟨penAfter s.p1 (s.arcTR.append_iter tol), s.p2⟩ ::
+      (arcSegsFrom s.p2 s.arcBR tol ++ PathSeg.Line ⟨penAfter s.p2 (s.arcBR.append_iter tol), s.p3⟩ ::
+      (arcSegsFrom s.p3 s.arcBL tol ++
+        (if (penAfter s.p3 (s.arcBL.append_iter tol)).peq s.p0 then []
+         else [PathSeg.Line ⟨penAfter s.p3 (s.arcBL.append_iter tol), s.p0⟩]))))) :=
+  roundedRect_segs_eq s tol
+
+/-- circle segment: radial line, outer cubics, radial line, inner cubics -/
+theorem cseg_segs (s : CircleSegment K) (tol : K) :
+    segs (s.path_elements tol) = some (
+      PathSeg.Line ⟨pointOnCircle s.center s.inner_radius s.start_angle, pointOnCircle s.center s.outer_radius s.start_angle⟩ ::
+      (arcSegsFrom (pointOnCircle s.center s.outer_radius s.start_angle) s.outer_arc tol ++
+       PathSeg.Line ⟨penAfter (pointOnCircle s.center s.outer_radius s.start_angle) (s.outer_arc.append_iter tol),
+          pointOnCircle s.center s.inner_radius s.inner_arc.start_angle⟩ ::
+       arcSegsFrom (pointOnCircle s.center s.inner_radius s.inner_arc.start_angle) s.inner_arc tol)) :=
+  cseg_segs_eq s tol
+
+/-- an arc's own outline is `arcSegsFrom` its start point; it has `n` segments -/
+theorem arc_segs_from (a : Arc K) (tol : K) :
+    segs (a.path_elements tol)
+      = some (arcSegsFrom (arcPt a.center a.radii a.x_rotation (a.appendParams tol).2.2 a.start_angle 0) a tol) ∧
+    ∀ p, (arcSegsFrom p a tol).length = (a.appendParams tol).1 := by
+  refine ⟨?_, fun p => arcSegsFrom_length p a tol⟩
+  rw [arc_path_structure, append_iter_eq, segs_moveTo_curveEls]; rfl
+
+end anyScalar
+end Kurbo
+
+/-! ## A′. the same structure with field arithmetic (any lawful scalar: ℚ, ℝ, …) -/
+namespace Kurbo
+section lawful
+variable {K : Type} [Field K] [LinearOrder K] [IsStrictOrderedRing K] [FloorRing K] [Scalar K] [LawfulScalar K]
+
+/-- the accumulated angle in closed form -/
+theorem accAngle_closed_form (start step : K) (k : Nat) : accAngle start step k = start + k * step :=
+  accAngle_eq start step k
+
+theorem circle_start_point (c : Circle K) : circleStart c = ⟨c.center.x + c.radius, c.center.y⟩ := circleStart_eq c
+
+/-- `θ_k = delta_th · k`, and the start angle `θ_{k+1} − delta_th` that the iterator uses for piece `k` is `θ_k` -/
+theorem circle_piece_angles (n k : Nat) :
+    (circleTheta n k : K) = 2 * Scalar.pi / n * k ∧ (circleTh0 n k : K) = circleTheta n k := by
+  rw [circleTh0_eq, circleTheta_eq]; exact ⟨rfl, rfl⟩
+
+/-- the pieces cover one full turn: `delta_th · n = 2π` -/
+theorem circle_total_angle (n : Nat) (hn : n ≠ 0) : (circleTheta n n : K) = 2 * Scalar.pi := by
+  have : (n : K) ≠ 0 := by exact_mod_cast hn
+  rw [circleTheta_eq]; field_simp
+
+example : (4 : Nat) ≠ 0 := by decide
+
+/-- the last piece ends at `(x + r·1, y + r·0) = (x + r, y)`: the contour returns EXACTLY to its `MoveTo` point
+    (`chainStart p0 e n` is the end point of piece `n − 1`, and `p0` when `n = 0`) -/
+theorem circle_returns_to_start (c : Circle K) (n : Nat) :
+    circleEnd c (n + 1) n = circleStart c ∧ chainStart (circleStart c) (circleEnd c n) n = circleStart c :=
+  ⟨circle_chain_closed c (n + 1), circle_chain_closed c n⟩
+
+/-- hence `segs` of a circle outline is the `n` cubics, piece `k` starting at the end point of piece `k − 1`, and no
+    closing line; the `Segments` iterator never panics on it -/
+theorem circle_segs (c : Circle K) (tol : K) :
+    segs (c.path_elements tol)
+      = some ((List.range (c.pathParams tol).1).map fun k => PathSeg.Cubic
+          ⟨chainStart (circleStart c) (circleEnd c (c.pathParams tol).1) k,
+           circleC1 c (c.pathParams tol).2 (c.pathParams tol).1 k, circleC2 c (c.pathParams tol).2 (c.pathParams tol).1 k,
+           circleEnd c (c.pathParams tol).1 k⟩) :=
+  circle_segs_lawful c tol
+
+-- non-vacuity: a circle over ℚ in the fixed branch has four pieces
+example : ((⟨⟨0, 0⟩, 1⟩ : Circle ℚ).pathParams (1/10)).1 = 4 := by decide +kernel
+
+/-- control arms of an arc piece (algebraic part of `arc_arms_tangent`):
+    `p1 − p0 = arm · S(θ_k + π/2)` and `p3 − p2 = arm · S(θ_{k+1} + π/2)` -/
+theorem arc_arms_formula (c : Point K) (radii : Vec2 K) (rot arm step start : K) (k : Nat) :
+    arcC1 c radii rot arm step start k - arcPt c radii rot step start k
+      = (⟨arm * (sampleEllipse radii rot (accAngle start step k + fracPi2)).x,
+          arm * (sampleEllipse radii rot (accAngle start step k + fracPi2)).y⟩ : Vec2 K) ∧
+    arcPt c radii rot step start (k + 1) - arcC2 c radii rot arm step start k
+      = (⟨arm * (sampleEllipse radii rot (accAngle start step (k + 1) + fracPi2)).x,
+          arm * (sampleEllipse radii rot (accAngle start step (k + 1) + fracPi2)).y⟩ : Vec2 K) :=
+  arc_arms c radii rot arm step start k
+
+end lawful
+end Kurbo
+
+/-! ## B. the real numbers with the trigonometric laws -/
+namespace Kurbo
+
+-- the class assumptions are satisfiable: ℝ with Mathlib's functions
+example : @LawfulScalar ℝ _ _ _ _ realScalar ∧ @LawfulTrig realScalar ∧ @LawfulCount realScalar :=
+  ⟨realScalar_lawful, realScalar_lawfulTrig, realScalar_lawfulCount⟩
+
+section real
+variable [Scalar ℝ] [LawfulScalar ℝ] [LawfulTrig]
+
+/-! ### 6. end points on the ideal curve
+
+    `OnEllipse c rx ry rot p`: in the frame of the axes (`p − c` turned by `−rot`) `(u/rx)² + (v/ry)² = 1`;
+    `OnCircle c r p`: `(p.x − c.x)² + (p.y − c.y)² = r²`. -/
+
+/-- turned back by `−rot`, the sample is `(rx·cos θ, ry·sin θ)`; hence it satisfies the implicit equation -/
+theorem sampleEllipse_on_ellipse (c : Point ℝ) (radii : Vec2 ℝ) (rot θ : ℝ) :
+    ((sampleEllipse radii rot θ).x * Real.cos rot + (sampleEllipse radii rot θ).y * Real.sin rot = radii.x * Real.cos θ ∧
+     -(sampleEllipse radii rot θ).x * Real.sin rot + (sampleEllipse radii rot θ).y * Real.cos rot = radii.y * Real.sin θ) ∧
+    (radii.x ≠ 0 → radii.y ≠ 0 → OnEllipse c radii.x radii.y rot (c + sampleEllipse radii rot θ)) :=
+  ⟨sampleEllipse_unrotate radii rot θ, center_add_onEllipse c radii rot θ⟩
+
+/-- every element of an arc outline (the `MoveTo` and each `CurveTo`) ends exactly on the ideal ellipse -/
+theorem arc_endpoints_on_ellipse (a : Arc ℝ) (tol : ℝ) (hx : a.radii.x ≠ 0) (hy : a.radii.y ≠ 0) :
+    ∀ el ∈ a.path_elements tol, ∃ p, el.end_point = some p ∧ OnEllipse a.center a.radii.x a.radii.y a.x_rotation p := by
+  intro el h
+  rcases List.mem_cons.mp h with rfl | h
+  · exact ⟨_, rfl, center_add_onEllipse _ _ _ _ hx hy⟩
+  · exact append_iter_onEllipse a tol hx hy el h
+
+example : (⟨⟨0, 0⟩, ⟨2, 1⟩, 0, 1, 0⟩ : Arc ℝ).radii.x ≠ 0 ∧ (⟨⟨0, 0⟩, ⟨2, 1⟩, 0, 1, 0⟩ : Arc ℝ).radii.y ≠ 0 := by
+  constructor <;> norm_num
+
+/-- ellipse outline: on the ellipse with the `svd` radii and rotation about `e.center` -/
+theorem ellipse_endpoints_on_ellipse (e : Ellipse ℝ) (tol : ℝ) (hx : e.inner.svd.1.x ≠ 0) (hy : e.inner.svd.1.y ≠ 0) :
+    ∀ el ∈ e.path_elements tol, ∃ p, el.end_point = some p ∧
+      OnEllipse e.center e.inner.svd.1.x e.inner.svd.1.y e.inner.svd.2 p :=
+  arc_endpoints_on_ellipse e.arc tol hx hy
+
+/-- circle outline: every element other than `ClosePath` ends exactly on the ideal circle -/
+theorem circle_endpoints_on_circle (c : Circle ℝ) (tol : ℝ) :
+    ∀ el ∈ c.path_elements tol, el = PathEl.ClosePath ∨
+      ∃ p, el.end_point = some p ∧ (p.x - c.center.x) ^ 2 + (p.y - c.center.y) ^ 2 = c.radius ^ 2 :=
+  circle_elements_onCircle c tol
+
+/-- the corner arcs of a rounded rectangle end on the corner circles (also for radius `0`) -/
+theorem roundedRect_arc_endpoints_on_circle (s : RoundedRect ℝ) (tol : ℝ) :
+    ∀ a ∈ s.arcs, ∀ el ∈ a.append_iter tol, ∃ p, el.end_point = some p ∧ OnCircle a.center a.radii.x p := by
+  intro a ha
+  rw [RoundedRect.arcs_eq] at ha
+  simp only [List.mem_cons, List.not_mem_nil, or_false] at ha
+  rcases ha with rfl | rfl | rfl | rfl <;> exact append_iter_onCircle _ tol _ rfl ofNat_zero_eq
+
+/-- the two arcs of a circle segment end on the outer and on the inner circle -/
+theorem cseg_arc_endpoints_on_circle (s : CircleSegment ℝ) (tol : ℝ) :
+    (∀ el ∈ s.outer_arc.append_iter tol, ∃ p, el.end_point = some p ∧ OnCircle s.center s.outer_radius p) ∧
+    (∀ el ∈ s.inner_arc.append_iter tol, ∃ p, el.end_point = some p ∧ OnCircle s.center s.inner_radius p) :=
+  ⟨append_iter_onCircle _ tol _ rfl ofNat_zero_eq, append_iter_onCircle _ tol _ rfl ofNat_zero_eq⟩
+
+/-! ### 7. tangent control arms -/
+
+/-- the control arms `p1 − p0` and `p3 − p2` of piece `k` are `arm_len` times the derivative of
+    `θ ↦ sampleEllipse radii rot θ` at the piece's start angle `θ_k` resp. end angle `θ_{k+1}` -/
+theorem arc_arms_tangent (c : Point ℝ) (radii : Vec2 ℝ) (rot arm step start : ℝ) (k : Nat) :
+    ∃ d0 d1 : Vec2 ℝ,
+      (HasDerivAt (fun t => (sampleEllipse radii rot t).x) d0.x (accAngle start step k) ∧
+       HasDerivAt (fun t => (sampleEllipse radii rot t).y) d0.y (accAngle start step k)) ∧
+      (HasDerivAt (fun t => (sampleEllipse radii rot t).x) d1.x (accAngle start step (k + 1)) ∧
+       HasDerivAt (fun t => (sampleEllipse radii rot t).y) d1.y (accAngle start step (k + 1))) ∧
+      arcC1 c radii rot arm step start k - arcPt c radii rot step start k = (⟨arm * d0.x, arm * d0.y⟩ : Vec2 ℝ) ∧
+      arcPt c radii rot step start (k + 1) - arcC2 c radii rot arm step start k = (⟨arm * d1.x, arm * d1.y⟩ : Vec2 ℝ) :=
+  ⟨sampleEllipse radii rot (accAngle start step k + fracPi2), sampleEllipse radii rot (accAngle start step (k + 1) + fracPi2),
+    sampleEllipse_hasDerivAt radii rot _, sampleEllipse_hasDerivAt radii rot _,
+    (arc_arms c radii rot arm step start k).1, (arc_arms c radii rot arm step start k).2⟩
+
+/-- same for the cubic `circleArcCubic ctr r a α β` (the pieces of a circle outline, see `circle_pieces_real`):
+    `p0, p3` are the circle points at `α, β` and the arms are `a` times the derivative of `θ ↦ circlePt ctr r θ` -/
+theorem circle_arms_tangent (ctr : Point ℝ) (r a α β : ℝ) :
+    (circleArcCubic ctr r a α β).p0 = circlePt ctr r α ∧ (circleArcCubic ctr r a α β).p3 = circlePt ctr r β ∧
+    ∃ d0 d1 : Vec2 ℝ,
+      (HasDerivAt (fun t => (circlePt ctr r t).x) d0.x α ∧ HasDerivAt (fun t => (circlePt ctr r t).y) d0.y α) ∧
+      (HasDerivAt (fun t => (circlePt ctr r t).x) d1.x β ∧ HasDerivAt (fun t => (circlePt ctr r t).y) d1.y β) ∧
+      (circleArcCubic ctr r a α β).p1 - (circleArcCubic ctr r a α β).p0 = (⟨a * d0.x, a * d0.y⟩ : Vec2 ℝ) ∧
+      (circleArcCubic ctr r a α β).p3 - (circleArcCubic ctr r a α β).p2 = (⟨a * d1.x, a * d1.y⟩ : Vec2 ℝ) :=
+  ⟨rfl, rfl, ⟨-(r * Real.sin α), r * Real.cos α⟩, ⟨-(r * Real.sin β), r * Real.cos β⟩,
+    circlePt_hasDerivAt ctr r α, circlePt_hasDerivAt ctr r β,
+    (circleArcCubic_arms ctr r a α β).1, (circleArcCubic_arms ctr r a α β).2⟩
+
+/-! ### 8. one traversal, closedness -/
+
+/-- circle outline over ℝ: the pieces are the standard circular-arc cubics between `2πk/n` and `2π(k+1)/n`,
+    `k = 0 … n − 1` (`circleAngle n k = 2π/n·k`), each starting where the one before ends; no closing line -/
+theorem circle_pieces_real (c : Circle ℝ) (tol : ℝ) (hn : (c.pathParams tol).1 ≠ 0) :
+    segs (c.path_elements tol)
+      = some ((List.range (c.pathParams tol).1).map fun k => PathSeg.Cubic
+          (circleArcCubic c.center c.radius (c.pathParams tol).2
+            (circleAngle (c.pathParams tol).1 k) (circleAngle (c.pathParams tol).1 (k + 1)))) ∧
+    circleAngle (c.pathParams tol).1 0 = 0 ∧ circleAngle (c.pathParams tol).1 (c.pathParams tol).1 = 2 * Real.pi :=
+  ⟨circle_segs_real c tol hn, circleAngle_zero _, circleAngle_full _ hn⟩
+
+end real
+
+section count
+variable [Scalar ℝ] [LawfulScalar ℝ] [LawfulTrig] [LawfulCount]
+
+/-- the parameters of an arc outline over ℝ: `angle_step = sweep / n`, `arm_len = 4/3·tan|step/4|·sign`; there is no
+    piece only when `sweep = 0`; every piece spans at most `2π/3.999999` (a hair more than a quarter turn) -/
+theorem arc_params (a : Arc ℝ) (tol : ℝ) :
+    (a.appendParams tol).2.2 = a.sweep_angle / ((a.appendParams tol).1 : ℝ)
+      ∧ (a.appendParams tol).2.1
+          = 4 / 3 * Real.tan |1 / 4 * (a.sweep_angle / ((a.appendParams tol).1 : ℝ))| * (if a.sweep_angle < 0 then -1 else 1)
+      ∧ ((a.appendParams tol).1 = 0 → a.sweep_angle = 0)
+      ∧ 3999999 / 1000000 * |a.sweep_angle| ≤ 2 * Real.pi * ((a.appendParams tol).1 : ℝ) :=
+  appendParams_real a tol
+
+/-- exactly one traversal: the accumulated angles are `θ_k = start + k·sweep/n` and the last one is `start + sweep`
+    (for every arc and tolerance, also when `sweep = 0` and there is no piece) -/
+theorem arc_total_angle (a : Arc ℝ) (tol : ℝ) :
+    (∀ k, accAngle a.start_angle (a.appendParams tol).2.2 k
+        = a.start_angle + k * (a.sweep_angle / ((a.appendParams tol).1 : ℝ))) ∧
+    accAngle a.start_angle (a.appendParams tol).2.2 (a.appendParams tol).1 = a.start_angle + a.sweep_angle :=
+  ⟨fun k => by rw [accAngle_eq, (appendParams_real a tol).1], arc_accAngle_total a tol⟩
+
+/-- `n • angle_step = sweep` whenever there is a piece -/
+theorem arc_steps_sum (a : Arc ℝ) (tol : ℝ) (hn : (a.appendParams tol).1 ≠ 0) :
+    ((a.appendParams tol).1 : ℝ) * (a.appendParams tol).2.2 = a.sweep_angle := by
+  have : ((a.appendParams tol).1 : ℝ) ≠ 0 := by exact_mod_cast hn
+  rw [(appendParams_real a tol).1]; field_simp
+
+/-- drawing the pieces from the arc's start point `c + S(start)` leaves the pen on `c + S(start + sweep)` -/
+theorem arc_end_point (a : Arc ℝ) (tol : ℝ) :
+    penAfter (a.center + sampleEllipse a.radii a.x_rotation a.start_angle) (a.append_iter tol)
+      = a.center + sampleEllipse a.radii a.x_rotation (a.start_angle + a.sweep_angle) :=
+  penAfter_arc_real a tol
+
+/-- the two branches of the circle outline: `n = 4` with the fixed arm `0.551915024494` when `|r|/T < 1/1.9608e-4`,
+    otherwise `n ≥ 5` with arm `4/3·tan(π/(2n))`; in particular `n ≠ 0` -/
+theorem circle_piece_count (c : Circle ℝ) (tol : ℝ) :
+    (|c.radius| / tol < 100000000 / 19608 ∧ c.pathParams tol = (4, 551915024494 / 1000000000000)) ∨
+    (100000000 / 19608 ≤ |c.radius| / tol ∧ 5 ≤ (c.pathParams tol).1 ∧
+      (c.pathParams tol).2 = 4 / 3 * Real.tan (Real.pi / 2 / ((c.pathParams tol).1 : ℝ))) :=
+  pathParams_real c tol
+
+theorem circle_piece_count_ne_zero (c : Circle ℝ) (tol : ℝ) : (c.pathParams tol).1 ≠ 0 := by
+  rcases pathParams_real c tol with ⟨-, h⟩ | ⟨-, h, -⟩
+  · rw [h]; decide
+  · omega
+
+/-- an ellipse outline returns to its starting point (`sin`, `cos` have period `2π`) -/
+theorem ellipse_closed (e : Ellipse ℝ) (tol : ℝ) :
+    ∃ p0, e.path_elements tol = PathEl.MoveTo p0 :: e.arc.append_iter tol ∧ penAfter p0 (e.arc.append_iter tol) = p0 :=
+  ⟨_, rfl, (penAfter_arc_real e.arc tol).trans (ellipse_arc_closed_real e)⟩
+
+/-- circle segment: `MoveTo A, LineTo B, outer arc, LineTo D, inner arc` where the outer arc starts on `B`
+    (`= pointOnCircle outer start`) and ends on `pointOnCircle outer (start + sweep)`, `D = pointOnCircle inner
+    (start + sweep)` is where the inner arc starts, and the inner arc ends on `A`: the outline returns to its start -/
+theorem cseg_closed (s : CircleSegment ℝ) (tol : ℝ) :
+    s.outer_arc.startPt = pointOnCircle s.center s.outer_radius s.start_angle ∧
+    penAfter s.outer_arc.startPt (s.outer_arc.append_iter tol)
+      = pointOnCircle s.center s.outer_radius (s.start_angle + s.sweep_angle) ∧
+    s.inner_arc.startPt = pointOnCircle s.center s.inner_radius s.inner_arc.start_angle ∧
+    s.inner_arc.startPt = pointOnCircle s.center s.inner_radius (s.start_angle + s.sweep_angle) ∧
+    penAfter s.inner_arc.startPt (s.inner_arc.append_iter tol) = pointOnCircle s.center s.inner_radius s.start_angle := by
+  obtain ⟨h1, h2, h3, h4⟩ := cseg_arc_points_real s
+  refine ⟨h1, (penAfter_arc_real _ tol).trans h2, ?_, h3, (penAfter_arc_real _ tol).trans h4⟩
+  rw [h3]; simp only [CircleSegment.inner_arc, scalar_norm]
+
+/-- rounded rectangle: each corner arc starts exactly on the point where the straight piece before it ends
+    (`p0 … p3`), and ends on the next side: at `(x0 + r_tl, y0)`, `(x1, y0 + r_tr)`, `(x1 − r_br, y1)`, `(x0, y1 − r_bl)`;
+    the following `LineTo p1 / p2 / p3` and the closing line to `p0` are therefore axis-parallel -/
+theorem roundedRect_joints (s : RoundedRect ℝ) (tol : ℝ) :
+    (s.arcTL.startPt = s.p0 ∧ s.arcTR.startPt = s.p1 ∧ s.arcBR.startPt = s.p2 ∧ s.arcBL.startPt = s.p3) ∧
+    (penAfter s.p0 (s.arcTL.append_iter tol) = ⟨s.rect.x0 + s.radii.top_left, s.rect.y0⟩ ∧
+     penAfter s.p1 (s.arcTR.append_iter tol) = ⟨s.rect.x1, s.rect.y0 + s.radii.top_right⟩ ∧
+     penAfter s.p2 (s.arcBR.append_iter tol) = ⟨s.rect.x1 - s.radii.bottom_right, s.rect.y1⟩ ∧
+     penAfter s.p3 (s.arcBL.append_iter tol) = ⟨s.rect.x0, s.rect.y1 - s.radii.bottom_left⟩) ∧
+    (s.p1.y = s.rect.y0 ∧ s.p2.x = s.rect.x1 ∧ s.p3.y = s.rect.y1 ∧ s.p0.x = s.rect.x0) := by
+  obtain ⟨a0, a1, a2, a3⟩ := roundedRect_arc_starts_real s
+  obtain ⟨e0, e1, e2, e3⟩ := roundedRect_arc_ends_real s
+  refine ⟨⟨a0, a1, a2, a3⟩, ⟨?_, ?_, ?_, ?_⟩, rfl, rfl, rfl, rfl⟩
+  · rw [← a0, penAfter_arc_real, e0]
+  · rw [← a1, penAfter_arc_real, e1]
+  · rw [← a2, penAfter_arc_real, e2]
+  · rw [← a3, penAfter_arc_real, e3]
+
+end count
+end Kurbo
+
+/-! ## 9. radial error of a circular piece; the tolerance claim for the fixed branch of circles -/
+namespace Kurbo
+section radial
+variable [Scalar ℝ] [LawfulScalar ℝ]
+
+/-- radial identity of one circular-arc cubic (arm `a·r`, between the angles `μ − φ` and `μ + φ`): with `σ = t(1 − t)`,
+    `s = sin φ`, `c = cos φ`:  `|B(t) − ctr|² − r² = r²·(σ²·(9a² − 12s² + 12acs) − 4σ³·(2s − 3ac)²)`.
+    (`B` is the model's `CubicBez.eval`; with `a = 4/3·tan(φ/2)` the `σ²` coefficient vanishes to fourth order in `φ`.) -/
+theorem circle_piece_radial_identity (ctr : Point ℝ) (r a μ φ t : ℝ) :
+    (((circleArcCubic ctr r a (μ - φ) (μ + φ)).eval t).x - ctr.x) ^ 2
+      + (((circleArcCubic ctr r a (μ - φ) (μ + φ)).eval t).y - ctr.y) ^ 2 - r ^ 2
+      = r ^ 2 * ((t * (1 - t)) ^ 2 * (9 * a ^ 2 - 12 * Real.sin φ ^ 2 + 12 * a * Real.cos φ * Real.sin φ)
+          - 4 * (t * (1 - t)) ^ 3 * (2 * Real.sin φ - 3 * a * Real.cos φ) ^ 2) :=
+  circleArcCubic_radial_identity ctr r a μ φ t
+
+/-- the quarter-circle cubic `(1,0), (1,a), (a,1), (0,1)` with `a = 0.551915024494`
+    (`qX a t, qY a t` are its Bernstein coordinates): `| |B(t)| − 1 | ≤ 1.9608e-4` on `[0, 1]` -/
+theorem quarter_circle_radial_error {t : ℝ} (h0 : 0 ≤ t) (h1 : t ≤ 1) :
+    |Real.sqrt (qX (551915024494 / 1000000000000) t ^ 2 + qY (551915024494 / 1000000000000) t ^ 2) - 1|
+      ≤ 19608 / 100000000 :=
+  quarter_radial_bound h0 h1
+
+theorem quarter_circle_coords (a t : ℝ) :
+    qX a t = (1 - t) ^ 3 * 1 + 3 * (1 - t) ^ 2 * t * 1 + 3 * (1 - t) * t ^ 2 * a + t ^ 3 * 0 ∧
+    qY a t = (1 - t) ^ 3 * 0 + 3 * (1 - t) ^ 2 * t * a + 3 * (1 - t) * t ^ 2 * 1 + t ^ 3 * 1 := by
+  unfold qX qY; constructor <;> ring
+
+variable [LawfulTrig]
+
+/-- THE TOLERANCE CLAIM FOR THE FIXED BRANCH OF CIRCLES: if `|r|/T < 1/1.9608e-4` (and `T > 0`), the outline is the four
+    quarter cubics with arm `0.551915024494`, and EVERY point `B(t)`, `t ∈ [0,1]`, of every one of them is at a distance
+    from the centre that differs from `|r|` by at most `1.9608e-4·|r| < T` -/
+theorem circle_fixed_branch_within_tolerance (c : Circle ℝ) (tol : ℝ) (htol : 0 < tol)
+    (hb : |c.radius| / tol < 100000000 / 19608) :
+    segs (c.path_elements tol) = some ((List.range 4).map fun k => PathSeg.Cubic
+        (circleArcCubic c.center c.radius (551915024494 / 1000000000000) (circleAngle 4 k) (circleAngle 4 (k + 1)))) ∧
+    (∀ k : Nat, ∀ t : ℝ, 0 ≤ t → t ≤ 1 →
+      abs (Real.sqrt ((((circleArcCubic c.center c.radius (551915024494 / 1000000000000)
+              (circleAngle 4 k) (circleAngle 4 (k + 1))).eval t).x - c.center.x) ^ 2
+          + (((circleArcCubic c.center c.radius (551915024494 / 1000000000000)
+              (circleAngle 4 k) (circleAngle 4 (k + 1))).eval t).y - c.center.y) ^ 2) - abs c.radius)
+        ≤ 19608 / 100000000 * abs c.radius) ∧
+    19608 / 100000000 * abs c.radius < tol := by
+  have hp := pathParams_fixed c tol hb
+  refine ⟨?_, ?_, eps_radius_lt_tol htol hb⟩
+  · have h := circle_segs_real c tol (by rw [hp]; decide)
+    rw [hp] at h
+    exact h
+  · intro k t h0 h1
+    rw [circleAngle_four_succ]
+    exact circleArcCubic_quarter_radial c.center c.radius (circleAngle 4 k) h0 h1
+
+-- non-vacuity: radius 1, tolerance 1/10
+example : (0 : ℝ) < 1 / 10 ∧ |(1 : ℝ)| / (1 / 10) < 100000000 / 19608 := by
+  constructor <;> norm_num
+
+variable [LawfulCount]
+
+/-- with the arm `4/3·tan(φ/2)` of the formula branch the squared distance is
+    `r²·(1 + 16·S⁶/C²·(σ² − 4σ³))`, `S, C = sin, cos (φ/2)`, `σ = t(1−t)`: the piece never enters the circle and leaves
+    it by the relative amount `≤ (2/27)·S⁶/C²` -/
+theorem circle_piece_radial_identity_tan (ctr : Point ℝ) (r μ φ t : ℝ) (hC : Real.cos (φ / 2) ≠ 0) :
+    (((circleArcCubic ctr r (4 / 3 * Real.tan (φ / 2)) (μ - φ) (μ + φ)).eval t).x - ctr.x) ^ 2
+      + (((circleArcCubic ctr r (4 / 3 * Real.tan (φ / 2)) (μ - φ) (μ + φ)).eval t).y - ctr.y) ^ 2
+      = r ^ 2 * (1 + 16 * Real.sin (φ / 2) ^ 6 / Real.cos (φ / 2) ^ 2 * ((t * (1 - t)) ^ 2 - 4 * (t * (1 - t)) ^ 3)) :=
+  circleArcCubic_tan_dist_sq ctr r μ φ t hC
+
+example : Real.cos ((Real.pi / 5) / 2) ≠ 0 :=
+  (Real.cos_pos_of_mem_Ioo ⟨by linarith [Real.pi_pos], by linarith [Real.pi_pos]⟩).ne'
+
+/-- the analytic core of the constant `1.1163`: for `n ≥ 5`, `(2/27)·sin⁶(π/2n)·n⁶ ≤ 1.1163·cos²(π/2n)`
+    (the limit of the quotient is `(2/27)(π/2)⁶ = 1.11272`) -/
+theorem circle_constant_bound (n : ℕ) (hn : 5 ≤ n) :
+    2 / 27 * Real.sin (Real.pi / 2 / n) ^ 6 * (n : ℝ) ^ 6 ≤ 11163 / 10000 * Real.cos (Real.pi / 2 / n) ^ 2 :=
+  trig_bound n hn
+
+/-- THE TOLERANCE CLAIM FOR THE FORMULA BRANCH OF CIRCLES: if `|r|/T ≥ 1/1.9608e-4` (and `T > 0`), the outline is
+    `n = ⌈(1.1163·|r|/T)^(1/6)⌉ ≥ 5` cubics with arm `4/3·tan(π/2n)`, and EVERY point `B(t)`, `t ∈ [0,1]`, of every one of
+    them is at a distance from the centre that differs from `|r|` by at most `1.1163·|r|/n⁶ ≤ T` -/
+theorem circle_formula_branch_within_tolerance (c : Circle ℝ) (tol : ℝ) (htol : 0 < tol)
+    (hb : 100000000 / 19608 ≤ |c.radius| / tol) :
+    5 ≤ (c.pathParams tol).1 ∧
+    segs (c.path_elements tol) = some ((List.range (c.pathParams tol).1).map fun k => PathSeg.Cubic
+        (circleArcCubic c.center c.radius (4 / 3 * Real.tan (Real.pi / 2 / ((c.pathParams tol).1 : ℝ)))
+          (circleAngle (c.pathParams tol).1 k) (circleAngle (c.pathParams tol).1 (k + 1)))) ∧
+    (∀ k : Nat, ∀ t : ℝ, 0 ≤ t → t ≤ 1 →
+      abs (Real.sqrt ((((circleArcCubic c.center c.radius (4 / 3 * Real.tan (Real.pi / 2 / ((c.pathParams tol).1 : ℝ)))
+              (circleAngle (c.pathParams tol).1 k) (circleAngle (c.pathParams tol).1 (k + 1))).eval t).x - c.center.x) ^ 2
+          + (((circleArcCubic c.center c.radius (4 / 3 * Real.tan (Real.pi / 2 / ((c.pathParams tol).1 : ℝ)))
+              (circleAngle (c.pathParams tol).1 k) (circleAngle (c.pathParams tol).1 (k + 1))).eval t).y - c.center.y) ^ 2)
+          - abs c.radius) ≤ tol) := by
+  rcases pathParams_real c tol with ⟨h, -⟩ | ⟨-, hn, ha⟩
+  · exact absurd hb (not_le.mpr h)
+  · refine ⟨hn, ?_, ?_⟩
+    · have h := circle_segs_real c tol (by omega)
+      rw [ha] at h
+      exact h
+    · intro k t h0 h1
+      exact (circleArcCubic_formula_radial c.center c.radius _ k hn h0 h1).trans
+        (radius_bound_le_tol htol hn (pathParams_pow c tol hb))
+
+-- non-vacuity: radius 1000, tolerance 1/10
+example : (0 : ℝ) < 1 / 10 ∧ (100000000 / 19608 : ℝ) ≤ |(1000 : ℝ)| / (1 / 10) := by
+  constructor <;> norm_num
+
+/-- THE TOLERANCE CLAIM FOR CIRCLES (both branches): for every circle and every tolerance `T > 0`, the outline is a
+    list of cubics (`segs` does not panic), and every point `B(t)`, `t ∈ [0, 1]`, of every one of them is within `T`
+    of the ideal circle: `| |B(t) − centre| − |r| | ≤ T` -/
+theorem circle_within_tolerance (c : Circle ℝ) (tol : ℝ) (htol : 0 < tol) :
+    ∃ ss, segs (c.path_elements tol) = some ss ∧ ∀ s ∈ ss, ∃ q, s = PathSeg.Cubic q ∧
+      ∀ t : ℝ, 0 ≤ t → t ≤ 1 →
+        abs (Real.sqrt (((q.eval t).x - c.center.x) ^ 2 + ((q.eval t).y - c.center.y) ^ 2) - abs c.radius) ≤ tol := by
+  rcases lt_or_ge (|c.radius| / tol) (100000000 / 19608) with hb | hb
+  · obtain ⟨h1, h2, h3⟩ := circle_fixed_branch_within_tolerance c tol htol hb
+    refine ⟨_, h1, ?_⟩
+    intro s hs
+    obtain ⟨k, -, rfl⟩ := List.mem_map.mp hs
+    exact ⟨_, rfl, fun t h0 h1' => ((h2 k t h0 h1').trans h3.le)⟩
+  · obtain ⟨-, h1, h2⟩ := circle_formula_branch_within_tolerance c tol htol hb
+    refine ⟨_, h1, ?_⟩
+    intro s hs
+    obtain ⟨k, -, rfl⟩ := List.mem_map.mp hs
+    exact ⟨_, rfl, fun t h0 h1' => h2 k t h0 h1'⟩
+
+/-! ### circular arcs (corner arcs of rounded rectangles, arcs of circle segments) -/
+
+/-- piece `k` of an arc with radii `(R, R)` and no rotation is the standard circular-arc cubic between its two
+    accumulated angles, and the arc's `arm_len` is `4/3·tan(step/4)` (the sign factor and `abs` of the source cancel) -/
+theorem circular_arc_pieces (a : Arc ℝ) (tol R : ℝ) (k : Nat) :
+    (⟨arcPt a.center ⟨R, R⟩ 0 (a.appendParams tol).2.2 a.start_angle k,
+      arcC1 a.center ⟨R, R⟩ 0 (a.appendParams tol).2.1 (a.appendParams tol).2.2 a.start_angle k,
+      arcC2 a.center ⟨R, R⟩ 0 (a.appendParams tol).2.1 (a.appendParams tol).2.2 a.start_angle k,
+      arcPt a.center ⟨R, R⟩ 0 (a.appendParams tol).2.2 a.start_angle (k + 1)⟩ : CubicBez ℝ)
+      = circleArcCubic a.center R (a.appendParams tol).2.1 (accAngle a.start_angle (a.appendParams tol).2.2 k)
+          (accAngle a.start_angle (a.appendParams tol).2.2 (k + 1)) ∧
+    (a.appendParams tol).2.1 = 4 / 3 * Real.tan ((a.appendParams tol).2.2 / 2 / 2) :=
+  ⟨arc_piece_circular _ _ _ _ _ _, arc_arm_eq_tan a tol⟩
+
+/-- THE TOLERANCE CLAIM FOR CIRCULAR ARCS, in the regime where the count formula works with `n_err ≥ 5`
+    (`1.1163·R/T ≥ 5⁶`, i.e. `R/T ≥ 13997.2`): radii `(R, R)`, `R ≥ 0`, no rotation, `T > 0`: the outline's segments are
+    `n` cubics and every point `B(t)`, `t ∈ [0,1]`, of every one of them is within `T` of the ideal circle -/
+theorem circular_arc_within_tolerance (a : Arc ℝ) (tol R : ℝ) (hr : a.radii = ⟨R, R⟩) (hrot : a.x_rotation = 0)
+    (hR : 0 ≤ R) (htol : 0 < tol) (hbig : 15625 ≤ 11163 / 10000 * (R / tol)) :
+    ∃ ss, segs (a.path_elements tol) = some ss ∧ ss.length = (a.appendParams tol).1 ∧ ∀ s ∈ ss, ∃ q, s = PathSeg.Cubic q ∧
+      ∀ t : ℝ, 0 ≤ t → t ≤ 1 →
+        abs (Real.sqrt (((q.eval t).x - a.center.x) ^ 2 + ((q.eval t).y - a.center.y) ^ 2) - abs R) ≤ tol :=
+  circular_arc_segs_within a tol R hr hrot hR htol hbig
+
+-- non-vacuity: a quarter turn of radius 2000 at tolerance 1/10
+example : (⟨⟨0, 0⟩, ⟨2000, 2000⟩, 0, 1, 0⟩ : Arc ℝ).radii = ⟨2000, 2000⟩ ∧ (0 : ℝ) ≤ 2000 ∧ (0 : ℝ) < 1 / 10 ∧
+    (15625 : ℝ) ≤ 11163 / 10000 * (2000 / (1 / 10)) := by
+  refine ⟨rfl, ?_, ?_, ?_⟩ <;> norm_num
+
+/-- the corner arcs of a rounded rectangle (as outlined on their own from their start points, which by
+    `roundedRect_joints` is where the pen is when they are drawn) stay within `T` of the corner circles when the
+    corner radius `ρ ≥ 0` satisfies `1.1163·ρ/T ≥ 5⁶` -/
+theorem roundedRect_corner_within_tolerance (s : RoundedRect ℝ) (tol : ℝ) (htol : 0 < tol) :
+    ∀ a ∈ s.arcs, 0 ≤ a.radii.x → 15625 ≤ 11163 / 10000 * (a.radii.x / tol) →
+      ∃ ss, segs (a.path_elements tol) = some ss ∧ ss.length = (a.appendParams tol).1 ∧ ∀ sg ∈ ss, ∃ q, sg = PathSeg.Cubic q ∧
+        ∀ t : ℝ, 0 ≤ t → t ≤ 1 →
+          abs (Real.sqrt (((q.eval t).x - a.center.x) ^ 2 + ((q.eval t).y - a.center.y) ^ 2) - abs a.radii.x) ≤ tol := by
+  intro a ha
+  rw [RoundedRect.arcs_eq] at ha
+  simp only [List.mem_cons, List.not_mem_nil, or_false] at ha
+  rcases ha with rfl | rfl | rfl | rfl <;>
+    exact fun hR hbig => circular_arc_segs_within _ tol _ rfl ofNat_zero_eq hR htol hbig
+
+/-- the two arcs of a circle segment, same regime -/
+theorem cseg_arcs_within_tolerance (s : CircleSegment ℝ) (tol : ℝ) (htol : 0 < tol) :
+    (0 ≤ s.outer_radius → 15625 ≤ 11163 / 10000 * (s.outer_radius / tol) →
+      ∃ ss, segs (s.outer_arc.path_elements tol) = some ss ∧ ss.length = (s.outer_arc.appendParams tol).1 ∧
+        ∀ sg ∈ ss, ∃ q, sg = PathSeg.Cubic q ∧ ∀ t : ℝ, 0 ≤ t → t ≤ 1 →
+          abs (Real.sqrt (((q.eval t).x - s.center.x) ^ 2 + ((q.eval t).y - s.center.y) ^ 2) - abs s.outer_radius) ≤ tol) ∧
+    (0 ≤ s.inner_radius → 15625 ≤ 11163 / 10000 * (s.inner_radius / tol) →
+      ∃ ss, segs (s.inner_arc.path_elements tol) = some ss ∧ ss.length = (s.inner_arc.appendParams tol).1 ∧
+        ∀ sg ∈ ss, ∃ q, sg = PathSeg.Cubic q ∧ ∀ t : ℝ, 0 ≤ t → t ≤ 1 →
+          abs (Real.sqrt (((q.eval t).x - s.center.x) ^ 2 + ((q.eval t).y - s.center.y) ^ 2) - abs s.inner_radius) ≤ tol) :=
+  ⟨fun hR hbig => circular_arc_segs_within s.outer_arc tol _ rfl ofNat_zero_eq hR htol hbig,
+   fun hR hbig => circular_arc_segs_within s.inner_arc tol _ rfl ofNat_zero_eq hR htol hbig⟩
+
+end radial
+end Kurbo
+
+/-! ## 10. the `svd` ellipse is the affine image of the unit circle -/
+namespace Kurbo
+section ellipse
+variable [Scalar ℝ] [LawfulScalar ℝ] [LawfulTrig] [LawfulReal]
+
+-- the additional class assumption (`Scalar.sqrt = Real.sqrt`, `atan2 y x = arg (x + iy)`, …) is satisfiable
+example : @LawfulReal realScalar := realScalar_lawfulReal
+
+/-- `Affine::svd` over ℝ: the radii are nonnegative and, with the returned angle `φ`, diagonalise the Gram matrix of the
+    linear part `M = [[c0, c2], [c1, c3]]`:  `M·Mᵀ = R(φ)·diag(rx², ry²)·R(φ)ᵀ`;  and `rx·ry = |det M|` -/
+theorem ellipse_svd_gram (A : Affine ℝ) :
+    (0 ≤ A.svd.1.x ∧ 0 ≤ A.svd.1.y) ∧
+    (A.svd.1.x ^ 2 * Real.cos A.svd.2 ^ 2 + A.svd.1.y ^ 2 * Real.sin A.svd.2 ^ 2 = A.c0 ^ 2 + A.c2 ^ 2 ∧
+     (A.svd.1.x ^ 2 - A.svd.1.y ^ 2) * (Real.sin A.svd.2 * Real.cos A.svd.2) = A.c0 * A.c1 + A.c2 * A.c3 ∧
+     A.svd.1.x ^ 2 * Real.sin A.svd.2 ^ 2 + A.svd.1.y ^ 2 * Real.cos A.svd.2 ^ 2 = A.c1 ^ 2 + A.c3 ^ 2) ∧
+    A.svd.1.x * A.svd.1.y = |A.c0 * A.c3 - A.c1 * A.c2| := by
+  obtain ⟨h1, h2, g⟩ := svd_gram A
+  refine ⟨⟨h1, h2⟩, g, ?_⟩
+  have := svd_radii_prod_sq A
+  rw [← abs_of_nonneg (mul_nonneg h1 h2)]
+  exact (sq_eq_sq_iff_abs_eq_abs _ _).mp this
+
+-- non-vacuity of the determinant hypothesis: the ellipse with semi-axes 2 and 1
+example : letI := realScalar; (⟨⟨2, 0, 0, 1, 0, 0⟩⟩ : Ellipse ℝ).inner.determinant ≠ 0 := by
+  show ((2 : ℝ) * 1 - 0 * 0 ≠ 0)
+  norm_num
+
+/-- every element of an ellipse outline (the `MoveTo` and each `CurveTo`) ends on the image of the unit circle under
+    the ellipse's affine map `e.inner` (non-singular): pulled back by `e.inner.inverse` it has squared length exactly `1`
+    – the quantity that `Ellipse::winding` compares with `1` (C11) -/
+theorem ellipse_endpoints_on_affine_image (e : Ellipse ℝ) (tol : ℝ) (hdet : e.inner.determinant ≠ 0) :
+    ∀ el ∈ e.path_elements tol, ∃ p, el.end_point = some p ∧ (e.inner.inverse * p).to_vec2.hypot2 = 1 := by
+  intro el h
+  rw [ellipse_path_elements_eq, arc_path_structure, append_iter_eq] at h
+  rcases List.mem_cons.mp h with rfl | h
+  · exact ⟨_, rfl, svd_sample_on_image e.inner hdet _⟩
+  · obtain ⟨k, -, rfl⟩ := mem_curveEls h
+    exact ⟨_, rfl, svd_sample_on_image e.inner hdet _⟩
+
+end ellipse
 end Kurbo
